@@ -8,6 +8,7 @@ COQ_PROP = "C10"
 FAMILIES = [(fam_sync, 150, 1500)]
 TECHNIQUE = "Coq proof (unchanged-flag => bytes unchanged, truth never written, second run is a no-op from the FIX law, by induction over targets and runs) + replay correspondence + history oracle on the real sync"
 TRUSTED = P.TRUSTED
+WITNESS_REPLAY = False   # a scenario can fail for several reasons; findings are reported when observed in the run
 
 
 def oracle(rng, tier):
